@@ -668,7 +668,7 @@ theorem invAck_step (cfg : Cfg) (s : State) (e : Event) (s' : State) (hO : InvOr
     cases hs
     refine invAck_produce hI hP hB hsend hBpw hBtp rfl rfl ?_ ?_
     · intro t e he
-      simp only [produced]
+      rw [produced_log]
       split
       · by_cases ht : t = tp
         · subst ht; simp [he]
@@ -676,7 +676,8 @@ theorem invAck_step (cfg : Cfg) (s : State) (e : Event) (s' : State) (hO : InvOr
       · exact he
     · intro ho x hx
       subst ho
-      simp [produced, BrOut.applied, hx]
+      rw [produced_log]
+      simp [BrOut.applied, hx]
   | complete pw b code =>
     simp only [step] at hs
     repeat' split at hs
